@@ -335,7 +335,6 @@ func (c *cTx) Fox() *Router {
 // Any attempt to write on the [ResponseWriter] will panic with the error [ErrDiscardedResponseWriter].
 func (c *cTx) Clone() Context {
 	cp := cTx{
-		rec:   c.rec,
 		req:   c.req.Clone(c.req.Context()),
 		fox:   c.fox,
 		route: c.route,
@@ -343,7 +342,20 @@ func (c *cTx) Clone() Context {
 		tsr:   c.tsr,
 	}
 
-	cp.rec.ResponseWriter = noopWriter{c.rec.Header().Clone()}
+	// Capture the state of the writer attached to this context. It is not necessarily the embedded recorder: a context
+	// obtained from Lookup or CloneWith uses a caller-supplied writer, and the embedded recorder may still hold the
+	// state of an unrelated, earlier request.
+	cp.rec = recorder{
+		ResponseWriter: noopWriter{c.w.Header().Clone()},
+		size:           notWritten,
+		status:         c.w.Status(),
+	}
+	if c.w.Written() {
+		cp.rec.size = c.w.Size()
+	}
+	if rec, ok := c.w.(*recorder); ok {
+		cp.rec.hijacked = rec.hijacked
+	}
 	cp.w = noUnwrap{&cp.rec}
 	if !c.tsr {
 		params := make(Params, len(*c.params))
